@@ -20,6 +20,7 @@
 from __future__ import annotations
 
 import abc
+import copy
 import functools
 import typing
 
@@ -849,8 +850,12 @@ class Compound(Event, abc.ABC, list[T], typing.Generic[T]):
     def destructive_copy(self) -> Compound[T]:
         empty_copy = self.empty_copy()
         # 'empty_copy' hands over the side attributes by reference, but a
-        # copy mustn't share its (mutable) tempo with its source.
-        empty_copy.tempo = self.tempo.copy()
+        # copy mustn't share mutable state (its tempo, the side attributes
+        # of a subclass) with its source.
+        for attribute in self._class_specific_side_attribute_tuple:
+            value = getattr(self, attribute)
+            if not callable(value):
+                setattr(empty_copy, attribute, copy.deepcopy(value))
         empty_copy.extend([event.destructive_copy() for event in self])
         return empty_copy
 
